@@ -21,7 +21,7 @@ LEVEL = "exploration"
 RULE = ("octet strings of length 0-2 enumerated exhaustively, longer ones drawn by Hypothesis; every non-alphabet "
         "byte value (192) inserted at every position of generated valid encodings (len 0-12) and lengths = 1 mod 4; "
         "integers around powers of 256 up to 2^4096, negatives; encode_int/decode_int for widths 64/256/384/521; JSON "
-        "objects for json_b64encode/decode (round trip, and a second decode of the same segment after the caller edited the first result). A case is non-trivial unless it is the empty string; distinct = digest "
+        "objects for json_b64encode/decode (round trip, and a second decode of the same segment after the caller edited the first result; wide headers and strings full of brackets); the integer members of real RSA keys as joserfc writes them into a JWK must be in minimal form. A case is non-trivial unless it is the empty string; distinct = digest "
         "of (function, input).")
 ASSUMPTIONS = ["reference codec /verif/ref/b64.py is a correct RFC 4648 section 5 codec (self-tested against known vectors)",
                "trailing '=', non-canonical trailing bits and the integer 0 are outside the statement (DONT_CARE)"]
